@@ -585,9 +585,11 @@ P_REG = 'exactly_lib.impls.types.files_source.impl.file_makers.regular'
 
 
 class FilesSourceI(Interface):
-    """FilesSource.populate(directory): proved of file_list.Primitive above; fails with HardErrorException only"""
+    """FilesSource.populate(directory): fails with HardErrorException (proved of file_list.Primitive above and of
+    copy_dir_contents._CopyDirContents below) or -- `dir-contents-of` whose source directory cannot be listed -- with
+    an OSError, which the makers translate to HardErrorException (NewFileCreator.make / ExistingFileModifier.make)"""
     attrs = {'describer': Any_}
-    methods = {'populate': Method(event='populate', may_raise=(lambda interp, o: HardErrorException(None),))}
+    methods = {'populate': Method(event='populate', may_raise=(lambda interp, o: HardErrorException(None), OSError))}
 
 
 class ContentsI(Interface):
@@ -631,7 +633,7 @@ M.contract(P_DIR + ':DirFileMaker._create_dir', params=dict(self=DIR_MAKER, path
            raises_only=())
 
 M.contract(P_DIR + ':DirFileMaker._add_to_dir', params=dict(self=DIR_MAKER, path=DESCRIBED_PATH),
-           may_raise=(HardErrorException,),
+           may_raise=(HardErrorException, OSError),
            ensures={'the existing directory is populated, nothing else': lambda self, path, trace:
            ops(trace) == ([] if self._contents is None else [('populate', self._contents)])},
            raises_only=())
@@ -1803,3 +1805,122 @@ M.contract(P_FC + ':_DdvHelper.files_as_map', params=dict(self=DDV_HELPER), ghos
                    value_for(result, p) is None
                    or iff(accepts_ddv(value_for(result, p), f), every_given_matcher_accepts(self._files, p, f)),
            }, raises_only=())
+
+
+# ============================================================================== dir-contents-of: copying into a directory
+# Ghost file system (contracts/pathspec.py): `entry_exists(p)` -- a directory entry of ANY kind at p, also a symbolic
+# link that points nowhere (what lstat sees); `target_exists(p)` -- symbolic links followed (what exists() sees).
+# What is written is a ghost log `copied` of (destination, source, whole tree?).
+
+from exactly_lib.impls.types.files_source.impl import copy_dir_contents
+from contracts.pathspec import entry_exists, name0
+
+P_CDC = 'exactly_lib.impls.types.files_source.impl.copy_dir_contents'
+
+
+def _os_copy(tree):
+    def m(interp, self, args, kwargs):
+        """OsServices.copy_file / copy_tree__preserve_as_much_as_possible: writes at dst (logged; the file system
+        changes) or fails with HardErrorException (impls/os_services/impl.py translates every OSError)"""
+        src, dst = args
+        _log_append(interp, 'copied', dst=pathspec.pid_of(interp, dst), src=pathspec.pid_of(interp, src),
+                    tree=tree)
+        pathspec.fs_changed(interp)
+        if interp.st.choose(2) == 1:
+            raise PyRaise(HardErrorException(Any_.make(interp, 'error')))
+        return None
+
+    return m
+
+
+class OsServicesI(Interface):
+    methods = {'copy_file': Method(model=_os_copy(False)),
+               'copy_tree__preserve_as_much_as_possible': Method(model=_os_copy(True))}
+
+
+class AppEnvI(Interface):
+    attrs = {'os_services': Iface(OsServicesI)}
+
+
+def copied_count(ghost=None):
+    """number of copy operations so far (proof level)"""
+    raise NotImplementedError
+
+
+def copied_dst(k):
+    raise NotImplementedError
+
+
+def copied_src(k):
+    raise NotImplementedError
+
+
+M.model(copied_count, lambda interp, args, kwargs: _log(interp, 'copied')['n'])
+M.model(copied_dst, lambda interp, args, kwargs: wrap(_log_fn('copied', 'dst', z3.IntSort())(to_z3(args[0]))))
+M.model(copied_src, lambda interp, args, kwargs: wrap(_log_fn('copied', 'src', z3.IntSort())(to_z3(args[0]))))
+
+M.contract(P_CDC + ':_FileNameClashRendering.renderer', trusted=True, returns=Any_, params=dict(self=Any_))
+
+COPY_DIR_CONTENTS = Inst(copy_dir_contents._CopyDirContents, _src_dir=DESCRIBED_PATH, _environment=Iface(AppEnvI))
+M.assume('lstat() of a name in the directory that is being populated raises FileNotFoundError iff there is no '
+         'directory entry of that name, of any kind (the directory itself exists and is accessible: the maker has '
+         'just created it or checked it)')
+
+
+def _dst_of(dst_dir_path, name):
+    return join(den(dst_dir_path.primitive), P(name))
+
+
+M.contract(P_CDC + ':_CopyDirContents._copy_path',
+           params=dict(self=COPY_DIR_CONTENTS, src_file_name=Str, dst_dir_path=DESCRIBED_PATH), inline=True,
+           old=lambda src_file_name, dst_dir_path, ghost:
+           (entry_exists(_dst_of(dst_dir_path, src_file_name)), copied_count(ghost)),
+           raises={
+               HardErrorException: {'ensures': lambda old, ghost:
+               # a clash: HARD_ERROR and NOTHING is written; otherwise the one copy operation failed
+               copied_count(ghost) == (old[1] if old[0] else old[1] + 1)},
+               OSError: {'ensures': lambda old, ghost: (not old[0]) and copied_count(ghost) == old[1]},
+           },
+           ensures={
+               'copies only when there is NO directory entry of any kind at the destination name (lstat: a dangling '
+               'symbolic link is a clash too)': lambda old: not old[0],
+               'one copy: directory/NAME from source/NAME': lambda self, src_file_name, dst_dir_path, old, ghost:
+               copied_count(ghost) == old[1] + 1
+               and copied_dst(old[1]) == _dst_of(dst_dir_path, src_file_name)
+               and copied_src(old[1]) == join(den(self._src_dir.primitive), P(src_file_name)),
+           }, raises_only=())
+
+M.contract(P_CDC + ':_CopyDirContents._copy_file',
+           params=dict(self=COPY_DIR_CONTENTS, src_file=PATH, dst_file=PATH), inline=True,
+           old=lambda ghost: copied_count(ghost),
+           may_raise=(HardErrorException, OSError),
+           ensures={'one copy operation, onto dst_file': lambda src_file, dst_file, old, ghost:
+           copied_count(ghost) == old + 1 and copied_dst(old) == den(dst_file) and copied_src(old) == den(src_file)},
+           raises_only=())
+
+
+def source_entries(self):
+    """the entries of the source directory (iterdir gives the same answer when asked again)"""
+    return self._src_dir.primitive.iterdir()
+
+
+def copied_in_order(entries, d, old, n):
+    """the first n entries of the source directory were copied, each to d/NAME -- nothing is written elsewhere"""
+    return forall_range(0, n, lambda k: copied_dst(old + k) == join0(d, P0(name0(den(entries[k])))))
+
+
+M.contract(P_CDC + ':_CopyDirContents.populate', params=dict(self=COPY_DIR_CONTENTS, directory=DESCRIBED_PATH),
+           old=lambda ghost: copied_count(ghost),
+           # a clash or a failing copy: HardErrorException; the source directory cannot be listed: OSError, which the
+           # makers translate (NewFileCreator.make / ExistingFileModifier.make, proved above)
+           may_raise=(HardErrorException, OSError),
+           ensures={'every entry of the source directory is copied to directory/NAME; nothing else is written':
+                        lambda self, directory, old, ghost:
+                        copied_count(ghost) == old + len(source_entries(self))
+                        and copied_in_order(source_entries(self), den(directory.primitive), old,
+                                            len(source_entries(self)))},
+           raises_only=())
+M.loop(P_CDC + ':_CopyDirContents.populate', 0,
+       invariant=lambda _i, _xs, directory, old:
+       copied_count() == old + _i and copied_in_order(_xs, den(directory.primitive), old, _i),
+       modifies={'src_path': 'local', 'ghost:copied': Custom(_mk_log), 'ghost:fs_epoch': Nat})
